@@ -37,6 +37,9 @@ type HarnessResult struct {
 	Vars        int            `json:"symbolic_inputs_max"`
 	Switches    int            `json:"goroutine_switches"`
 	Group       int            `json:"-"`
+	CrossChecked int           `json:"cross_checked_obligations"`
+	CrossSolver  string        `json:"cross_solver,omitempty"`
+	CrossSeconds float64       `json:"cross_solver_s"`
 }
 
 type PathSample struct {
@@ -240,6 +243,11 @@ func runHarness(ld *Loaded, cfg Config, pkg *ssa.Package, fn *ssa.Function, work
 				hr.Solver.Seconds += s.Seconds
 				hr.Solver.Errors += s.Errors
 				hr.Solver.Restarts += s.Restarts
+				hr.CrossChecked += e.crossChecked
+				if e.cross != nil {
+					hr.CrossSolver = e.cross.kind
+					hr.CrossSeconds += e.cross.Stats.Seconds
+				}
 				for f, n := range e.funcsSeen {
 					hr.Funcs[f.String()+" @"+e.pos(f.Pos())] += n
 				}
